@@ -413,12 +413,17 @@ func (w *world) exec(o *rop) (obs string) {
 	case "set":
 		info := o.R.Info()
 		ov := ri.SetRegion(info)
-		// read-only observers: the log formatting helpers, on the region that is now cached and on every cached region
+		// read-only observers: the log formatting helpers, on the region that is now cached and on what it displaced
+		// (once per object: a helper that is not read-only would otherwise compound its damage on every call)
 		_ = core.RegionToHexMeta(info.GetMeta()).String()
-		_ = core.RegionsToHexMeta(ri.GetMetaRegions()).String()
-		for _, x := range ri.GetRegions() {
-			_ = core.RegionToHexMeta(x.GetMeta()).String()
-			_ = x.GetMeta().String()
+		_ = info.GetMeta().String()
+		for _, x := range ov {
+			if x != nil {
+				_ = core.RegionToHexMeta(x.GetMeta()).String()
+			}
+		}
+		if ri.Len() <= 16 {
+			_ = core.RegionsToHexMeta(ri.GetMetaRegions()).String()
 		}
 		s, ok := c07x.Refs(ov)
 		if !ok {
